@@ -9,7 +9,7 @@ TECH = ('contract-based deductive verification: own ast->z3 VC generator (pyvc) 
 
 PROPS = {
     'C19': {
-        'modules': ['contracts.fsindex', 'contracts.fs_format', 'contracts.fs_iter'],
+        'modules': ['contracts.fsindex', 'contracts.fs_format', 'contracts.fs_iter', 'contracts.fsindex_io'],
         'lemmas': ['contracts.fsindex:lemma_order'],
         'level': 'proof',
         'bounded': [
@@ -22,7 +22,10 @@ PROPS = {
                 'min/max queries are proved, for all 8-byte keys and all index contents, to agree with a '
                 'sorted dictionary over the abstract view (whole-view postconditions + representation '
                 'invariant); FileStorage.record_iternext proved to return the smallest oid of the index not below `next` and the '
-                'smallest one after it (or None); iteration, len and save/load only by a labelled bounded stand-in.',
+                'smallest one after it (or None); fsIndex.save proved to write the position first, every prefix once with ITS '
+                'bucket packed, and the end marker last; fsIndex.load proved to give every pair a bucket of its own unpacked '
+                'from that pair and to return only after the end marker (a cut stream raises); iteration, len and the byte '
+                'level of the pickles only by a labelled bounded stand-in.',
         'note': 'Trusted: pyvc and z3; BTrees OOBTree/fsBucket assumed sorted finite maps (C code); bucket '
                 'ownership A-BUCKET-OWN; mathematical ints; struct layout. Bounded part: <=3 keys of a 12-key scope.',
         'design_ref': 'DESIGN.md section 5 C19',
@@ -280,7 +283,7 @@ PROPS['C15'] = {
 }
 
 PROPS['C09'] = {
-    'modules': FS_MODULES,
+    'modules': FS_MODULES + ['contracts.fsindex_io'],
     'lemmas': ['contracts.fs_index_files:lemma_readonly_guards'],
     'level': 'proof',
     'bounded': [
@@ -297,7 +300,8 @@ PROPS['C09'] = {
             'in place, to rename after removing the old file, and to touch nothing in read-only mode; read_index '
             'with read_only proved to leave the file byte-identical; _restore_index proved to hand a saved index to the open '
             'ONLY after _sane accepted exactly that index and position (with the tid _sane reports), None otherwise, '
-            'writing nothing; every mutator proved (syntactically + store/'
+            'writing nothing; fsIndex.load proved to return only after the end marker of the stream (a cut-short index '
+            'file raises and is ignored); every mutator proved (syntactically + store/'
             'deleteObject/new_oid/tpc_begin contracts) to refuse with ReadOnlyError first.',
     'note': 'SUFFICIENCY of the _check_sanity heuristic (accepted => the index is a prefix index of this file, also '
             'for an index saved before a pack) cannot be proved (a counter-model exists for adversarial payload '
